@@ -74,6 +74,27 @@ def check_term(acc: Acc, cls: str, p, h: float, xs: list[float]) -> None:
         acc.violate("array-shape", {"term": cls}, case0, [arr.shape], [np.shape(y1), np.shape(y2)],
                     f"{cls}: array evaluation does not preserve the shape")
         return
+    # construction paths: a long-lived term of another height re-configured with the shape parameters only has height 1
+    # (the documented default); Discrete pairs given in reverse order and sorted are the same term
+    if cls != "Constant":
+        fresh = G.make_term(cls, "t", p, 1.0)
+        again = G.make_term(cls, "t", p, 0.5 if h == 1.0 else h)
+        again.configure(" ".join(repr(float(v)) for v in p))
+        want_f = np.asarray(fresh.membership(arr), dtype=float)
+        got_f = np.asarray(again.membership(arr), dtype=float)
+        if not np.array_equal(want_f, got_f, equal_nan=True):
+            k = int(np.argmax(~((want_f == got_f) | (np.isnan(want_f) & np.isnan(got_f)))))
+            acc.violate("construction-path", {"term": cls, "path": "configure-without-height"}, {**case0, "x": float(arr[k])}, float(want_f[k]), float(got_f[k]),
+                        f"{cls}{p}: a term of height {again.height if again.height != 1.0 else 'not 1'} re-configured without a height gives {float(got_f[k])!r} at "
+                        f"{float(arr[k])!r}; the documented default height 1 gives {float(want_f[k])!r}")
+    if cls == "Discrete" and len(set(p[0::2])) == len(p[0::2]):
+        rev = fl.Discrete("t", fl.Discrete.to_xy(p[0::2][::-1], p[1::2][::-1]), h)
+        rev.sort()
+        got_r = np.asarray(rev.membership(arr), dtype=float)
+        if not np.array_equal(np.asarray(y1, dtype=float), got_r, equal_nan=True):
+            k = int(np.argmax(~((np.asarray(y1) == got_r) | (np.isnan(np.asarray(y1, dtype=float)) & np.isnan(got_r)))))
+            acc.violate("construction-path", {"term": cls, "path": "sort"}, {**case0, "x": float(arr[k])}, float(np.asarray(y1)[k]), float(got_r[k]),
+                        f"Discrete{p}: the pairs given in reverse order and sorted give {float(got_r[k])!r} at {float(arr[k])!r}, the ordered pairs {float(np.asarray(y1)[k])!r}")
     # single / half precision arrays are the same points as their double-precision values (the library converts first)
     for dtype in (np.float32, np.float16):
         with np.errstate(over="ignore"):
